@@ -219,6 +219,46 @@ def _abs_module(rel: str, level: int, mod: str | None) -> str:
     return ".".join(base_ + (mod.split(".") if mod else []))
 
 
+def _holding_context_managers(trees: dict[str, ast.Module], notes: dict[str, list[str]]) -> None:
+    """`with lock.held_for(args):` where `held_for` is a (async)contextmanager method of a lock-like class of _synchronization.py (one that is itself a context
+    manager) whose body is exactly  acquire(..) / try: yield / finally: release()  holds the lock for the block: it is the lock region `with lock:` (how long the
+    acquisition may wait, and which class it raises when it gives up, is not what the lock-region rules judge)."""
+    syn = next((t for rel, t in trees.items() if rel.replace(os.sep, "/").endswith("httpcore/_synchronization.py")), None)
+    if syn is None:
+        return
+    names: set[str] = set()
+    for c in [n for n in syn.body if isinstance(n, ast.ClassDef)]:
+        meths = {m.name: m for m in c.body if isinstance(m, FUNC_KINDS)}
+        if not ({"__enter__", "__aenter__"} & set(meths)):
+            continue
+        for m in meths.values():
+            if not any("contextmanager" in ast.unparse(d) for d in m.decorator_list):
+                continue
+            body = [st for st in m.body if not (isinstance(st, ast.Expr) and isinstance(st.value, ast.Constant))]
+            if len(body) != 2 or not isinstance(body[1], ast.Try) or body[1].handlers or body[1].orelse:
+                continue
+            acq = body[0].value if isinstance(body[0], ast.Expr) else None
+            acq = acq.value if isinstance(acq, ast.Await) else acq
+            tr = body[1]
+            rel_ = tr.finalbody[0].value if len(tr.finalbody) == 1 and isinstance(tr.finalbody[0], ast.Expr) else None
+            rel_ = rel_.value if isinstance(rel_, ast.Await) else rel_
+            ok = isinstance(acq, ast.Call) and ast.unparse(acq.func) in ("self.acquire", "self.__enter__", "self.__aenter__") \
+                and len(tr.body) == 1 and isinstance(tr.body[0], ast.Expr) and isinstance(tr.body[0].value, ast.Yield) and tr.body[0].value.value is None \
+                and isinstance(rel_, ast.Call) and ast.unparse(rel_.func) == "self.release"
+            if ok:
+                names.add(m.name)
+    if not names:
+        return
+    for rel, tree in trees.items():
+        for w in ast.walk(tree):
+            if isinstance(w, (ast.With, ast.AsyncWith)):
+                for it in w.items:
+                    ce = it.context_expr
+                    if it.optional_vars is None and isinstance(ce, ast.Call) and isinstance(ce.func, ast.Attribute) and ce.func.attr in names:
+                        it.context_expr = ce.func.value
+                        notes[rel].append(f"line {w.lineno}: `with {ast.unparse(ce)[:60]}` read as the lock region `with {ast.unparse(ce.func.value)}`")
+
+
 def normalise_program(trees: dict[str, ast.Module]) -> dict[str, list[str]]:
     """normalise_module for every unit, plus inlining of NEW module-level helpers across module boundaries (a helper defined in
     one unit and imported by another is un-refactored at its call sites there too)."""
@@ -230,6 +270,7 @@ def normalise_program(trees: dict[str, ast.Module]) -> dict[str, list[str]]:
     _inline._SERIAL[0] = 0
     base = baseline()
     notes: dict[str, list[str]] = {rel: [] for rel in trees}
+    _holding_context_managers(trees, notes)
     known_of: dict[str, set[str] | None] = {}
     exports: dict[str, dict[str, T.Any]] = {}
     class_exports: dict[str, dict[str, ast.ClassDef]] = {}
